@@ -345,7 +345,7 @@ func (s *State) ListObjects(typ, r, subj string, reqCtx map[string]any) (trueSet
 func (s *State) Unevaluable(reqCtx map[string]any) []int {
 	var out []int
 	for i, t := range s.Tuples {
-		if t.Cond != "" && s.M.ValidForRead(t) && s.M.EvalCond(t, reqCtx) == CondErr {
+		if t.Cond != "" && ((s.M.ValidForRead(t) && s.M.EvalCond(t, reqCtx) == CondErr) || s.M.BadStoredContext(t)) {
 			out = append(out, i)
 		}
 	}
@@ -367,18 +367,33 @@ const maxSuper = 6
 // ForEachValuation calls f with a solver for every valuation of the unevaluable conditions.
 // Returns approx=true (after calling f zero times) when there are too many.
 func (s *State) valuations(reqCtx map[string]any) (idx []int, vals []map[int]CondOutcome, approx bool) {
-	idx = s.Unevaluable(reqCtx)
-	if len(idx) > maxSuper {
+	all := s.Unevaluable(reqCtx)
+	// tuples with a bad stored context count (an error is admissible) but never hold: they come last
+	// and are not branched on
+	var fixed []int
+	for _, i := range all {
+		if s.M.BadStoredContext(s.Tuples[i]) {
+			fixed = append(fixed, i)
+		} else {
+			idx = append(idx, i)
+		}
+	}
+	free := len(idx)
+	idx = append(idx, fixed...)
+	if free > maxSuper {
 		return idx, nil, true
 	}
-	for mask := 0; mask < 1<<len(idx); mask++ {
+	for mask := 0; mask < 1<<free; mask++ {
 		f := map[int]CondOutcome{}
-		for b, i := range idx {
+		for b, i := range idx[:free] {
 			if mask&(1<<b) != 0 {
 				f[i] = CondSat
 			} else {
 				f[i] = CondUnsat
 			}
+		}
+		for _, i := range fixed {
+			f[i] = CondUnsat
 		}
 		vals = append(vals, f)
 	}
@@ -406,6 +421,9 @@ func (s *State) CheckSuper(o, r, subj string, reqCtx map[string]any) Super {
 		}
 	}
 	for b, i := range idx {
+		if 1<<b >= len(vals) {
+			break // the tuples with a bad stored context are not branched on
+		}
 		for m := range vals {
 			if m&(1<<b) == 0 && ans[m] != ans[m|(1<<b)] {
 				out.Relevant = append(out.Relevant, i)
